@@ -470,13 +470,29 @@ Proof.
     + rewrite A, B. apply HP.
 Qed.
 
+Lemma pre_phase_P T s : P s -> P (pre_phase T s).
+Proof.
+  unfold pre_phase.
+  apply (fold_good (fun acc b => match is_async (spec_of T b) with
+                                 | Some (_, APoll d) =>
+                                     if d =? 0 then
+                                       let r := set_output (fuel_of T) T acc b in
+                                       if iexn r then set_err r else r
+                                     else acc
+                                 | _ => acc end)).
+  intros s0 b. destruct (is_async (spec_of T b)) as [[tmo sc]|]; [|apply Good_refl].
+  destruct sc; try apply Good_refl. destruct (d =? 0); [|apply Good_refl]. cbv zeta.
+  pose proof (proj1 (init_good (fuel_of T) T s0 b)) as G.
+  destruct (iexn _); [eapply Good_trans; [exact G|apply Good_set_err]|exact G].
+Qed.
+
 Theorem init_step_machine T : P (fst (fst (run_init T))).
 Proof.
   unfold run_init.
-  pose proof (sync_pass_P T istate0 P_istate0) as H1.
-  destruct (ierr (sync_pass T istate0)); [exact H1|].
+  pose proof (sync_pass_P T _ (pre_phase_P T istate0 P_istate0)) as H1.
+  destruct (ierr (sync_pass T (pre_phase T istate0))); [exact H1|].
   pose proof (async_phase_P T _ H1) as H2.
-  destruct (async_phase T (sync_pass T istate0)) as [s2 tend]. simpl in H2.
+  destruct (async_phase T (sync_pass T (pre_phase T istate0))) as [s2 tend]. simpl in H2.
   destruct (ierr s2); [exact H2|]. simpl. now apply sync_pass_P.
 Qed.
 
